@@ -100,7 +100,8 @@ def _build_program(args):
     feats = {"enums": True, "force": force}
     if k < 0:          # the `thisargs` program: class templates using `This` as argument / return everywhere
         feats = {"enums": True, "force": ["template", "template", "enum_nested", "uchar"], "this_args": True,
-                 "class_enum_nested": True, "plain_derive": False, "ref_returns": False, "static_void": False, "shuffle_functions": False, "untidy_layout": False, "char_types": False, "enum_overloads": False}
+                 "class_enum_nested": True, "plain_derive": False, "ref_returns": False, "static_void": False, "shuffle_functions": False, "untidy_layout": False, "char_types": False, "enum_overloads": False,
+                 "twin_inner_ns": False}
     prog, itext, lib = MP.generate(tape, feats)
     open(os.path.join(d, "prog.i"), "w").write(itext)
     open(os.path.join(d, "lib.h"), "w").write(lib)
